@@ -502,6 +502,16 @@ DEEP = [(n, sh, op) for n in (399, 401, 700) for sh in (False, True) for op in (
 def explore(item, tier, seed):
     i, n = item
     rep = Report()
+    if i == 1 % n:
+        from checks import lpfamily as _F      # (lpfamily imports this module: resolved at call time)
+
+        for _, lab_, pr_, _m in _F.view_family():
+            fs = check_problem(pr_, tier, seed, rep, label=lab_)
+            seen_ = set()
+            for kind, d in fs:
+                if kind not in seen_:
+                    seen_.add(kind)
+                    rep.violation(kind, {"label": lab_, "problem": pr_}, **d)
     if i == 0:
         for (dn, sh, op) in DEEP:
             for kind, d in check_deep(dn, sh, op, rep):
